@@ -160,6 +160,18 @@ def run(ctx: core.Ctx):
                 ref = S if form == "1d" else np.concatenate([S, S]).reshape(2, -1)
                 if A.shape != ref.shape or not np.allclose(A, ref, rtol=0, atol=1e-15, equal_nan=True):
                     ctx.violation(f"{k}.membership/array-{form}", {"k": k, "p": cases[0]["p"], "h": cases[0]["h"], "palette": palette}, ref.tolist(), A.tolist(), note="array evaluation differs from element-by-element evaluation")
+            # the caller's own array, updated in place between two evaluations (the positions of NaN and of every breakpoint move)
+            try:
+                buf = X.copy()
+                term.membership(buf)
+                buf[...] = np.roll(X, 1)
+                A = np.asarray(term.membership(buf), dtype=float)
+                ctx.count()
+                if A.shape != S.shape or not np.allclose(A, np.roll(S, 1), rtol=0, atol=1e-15, equal_nan=True):
+                    ctx.violation(f"{k}.membership/same-array-updated-in-place", {"k": k, "p": cases[0]["p"], "h": cases[0]["h"], "palette": palette}, np.roll(S, 1).tolist(), A.tolist(),
+                                  note="the same array object, updated in place between two evaluations, gives values of its earlier contents")
+            except Exception as ex:
+                ctx.violation(f"{k}.membership/array-1d-raises", {"k": k, "p": cases[0]["p"], "h": cases[0]["h"], "palette": palette}, "values", f"{type(ex).__name__}: {ex}")
             # monotonicity on the code's own outputs along the ordered points
             if k in MONO:
                 if term.is_monotonic() is not True:
